@@ -444,10 +444,10 @@ def get_results(tier):
 # ------------------------------------------------------------------ replay against the real crate
 REPLAY = os.path.join(BUILD, "replay-target", "release", "replay")
 SCENARIOS = {"take": ["take1", "take2", "take0", "take2L", "take2R"], "map": ["map", "mapL", "mapR"], "filter": ["filter", "filterR"], "scan": ["scan", "scanR"], "skip": ["skip1", "skip1R"], "from_iter": ["from_iter", "from_iterR"],
-             "concat": ["concat2", "concat3", "concat2R", "concat2L", "concat3L"], "concat0": ["concat0"], "flatten": ["flatten"], "merge": ["merge2", "merge3", "merge2X", "merge2L", "merge3L", "merge2R"],
-             "combine1": ["combine2"], "combine2": ["combine2", "combine2X"], "combine3": ["combine2", "combine2X"], "share": ["share2", "share3"]}
+             "concat": ["concat2", "concat3", "concat2R", "concat2L", "concat3L"], "concat0": ["concat0"], "flatten": ["flatten", "flattenL"], "merge": ["merge2", "merge3", "merge2X", "merge2L", "merge3L", "merge2R"],
+             "combine1": ["combine2", "combine2L"], "combine2": ["combine2", "combine2X", "combine2L"], "combine3": ["combine2", "combine2X", "combine2L"], "share": ["share2", "share3"]}
 # scenarios in which the puppet sources are pullable (one answer per Pull) and the sink pulls only with none outstanding
-PULL_SCENARIOS = {"take": ["take2P", "take2PR"], "map": ["mapP", "mapPR"], "filter": ["filterP", "filterPR"], "scan": ["scanP", "scanPR"], "skip": ["skip1P", "skip1PR"], "from_iter": ["from_iterP"], "concat": ["concat2P", "concat3P"], "flatten": ["flattenP"]}
+PULL_SCENARIOS = {"take": ["take2P", "take2PR"], "map": ["mapP", "mapPR"], "filter": ["filterP", "filterPR"], "scan": ["scanP", "scanPR"], "skip": ["skip1P", "skip1PR"], "from_iter": ["from_iterP"], "concat": ["concat2P", "concat3P"], "flatten": ["flattenP", "flattenPL"]}
 
 
 def build_replay():
@@ -527,6 +527,8 @@ def thread_search(template, pid, secs):
 PROFILE_GAPS = {
     "share": {"scenarios": ["share2", "share3"], "why": "nested fan-out (a sink pulls from inside its handler and the source answers at once) is outside profile R of the unit share",
               "properties": ["C01", "C02", "C03", "C04", "C05", "C12", "C17"]},
+    "flatten": {"scenarios": ["flattenL", "flattenPL"], "len": 12, "why": "inner sources of flatten that greet after the subscribing call returned are outside the profile of the unit flatten",
+                "properties": ["C01", "C02", "C03", "C04", "C05", "C11", "C14", "C17"]},
     "combine": {"scenarios": ["combine2L"], "why": "members of combine that greet after the subscribing call returned are outside the profile of the units combineN",
                 "properties": ["C01", "C02", "C03", "C04", "C05", "C10", "C17"]},
 }
@@ -555,7 +557,7 @@ def gap_search(pid, key):
             entry = {"scenarios": [], "runs": 0, "hit": None}
             for sc in gap["scenarios"]:
                 try:
-                    p = subprocess.run([REPLAY, "search", sc, "--property", pid, "--len", "10", "--budget", "1500000"] + excl, capture_output=True, text=True, timeout=900)
+                    p = subprocess.run([REPLAY, "search", sc, "--property", pid, "--len", str(gap.get("len", 10)), "--budget", "1500000"] + excl, capture_output=True, text=True, timeout=900)
                     d = json.loads(p.stdout)
                 except Exception:
                     continue
@@ -569,7 +571,7 @@ def gap_search(pid, key):
             os.makedirs(os.path.dirname(path), exist_ok=True)
             json.dump(cache, open(path, "w"))
         e = cache[ck]
-        stats.append({"operator": op, "outside_the_proved_profile": gap["why"], "scenarios": e["scenarios"], "runs": e["runs"], "max_len": 10})
+        stats.append({"operator": op, "outside_the_proved_profile": gap["why"], "scenarios": e["scenarios"], "runs": e["runs"], "max_len": gap.get("len", 10)})
         if e.get("hit") and hit is None:
             hit = dict(e["hit"], operator=op, why=gap["why"])
     return hit, stats
